@@ -34,8 +34,9 @@ VALCODES = {
     'Q': dict(ext=[0, 2**64 - 1, 5], mid=[7, 7 + 2**32, 7 + 2**63]),
     'F': dict(ext=[-0.5, 1.5, 2.0 ** 127], mid=[0.5, 1.5, 2.25]),
     'O': dict(ext=[None, ('y', 1), 'x'], mid=['x', 'y', 'z']),
-    # (mid: strings that share their first bytes)
-    's': dict(ext=[b'\x00' * 6, b'\xff' * 6, b'abcdef'], mid=[b'aaaaaa', b'aaaaab', b'aabbbb']),
+    # (mid: strings that share their first bytes, a NUL among them: a comparison of a prefix, or one that stops at a
+    #  NUL, would not tell them apart)
+    's': dict(ext=[b'\x00' * 6, b'\xff' * 6, b'abcdef'], mid=[b'a\x00aaaa', b'a\x00aaab', b'a\x00bbbb']),
 }
 
 FAMILIES = ['OO', 'OI', 'OL', 'OU', 'OQ', 'IO', 'II', 'IF', 'IU', 'LO', 'LL', 'LF', 'LQ',
